@@ -46,6 +46,25 @@ def bucket_route(binner, X):
     return out
 
 
+REFUSE = {"on": False}
+_REFUSABLE = {}
+
+
+def _refusable(cls):
+    """Subclass of a scikit-learn binner whose fit raises while REFUSE['on'] (clone keeps the class)."""
+    if cls not in _REFUSABLE:
+        from vrt import probes
+
+        def fit(self, X, y=None, sample_weight=None, _base=cls):
+            if REFUSE["on"]:
+                raise probes.InjectedFault("binner told to refuse this fit")
+            if sample_weight is None:
+                return _base.fit(self, X, y)
+            return _base.fit(self, X, y, sample_weight=sample_weight)
+        _REFUSABLE[cls] = type(cls.__name__, (cls,), {"fit": fit, "__module__": cls.__module__})
+    return _REFUSABLE[cls]
+
+
 def run_case(case, ctx):
     import pandas
     from sklearn.preprocessing import KBinsDiscretizer
@@ -71,13 +90,13 @@ def run_case(case, ctx):
     bk = ["tree", "tree", "kbins", "bins"][rng.randint(4)]
     if bk == "tree":
         depth = int(rng.randint(1, 7))
-        binner = (DecisionTreeClassifier if clf else DecisionTreeRegressor)(max_depth=depth,
+        binner = _refusable(DecisionTreeClassifier if clf else DecisionTreeRegressor)(max_depth=depth,
                                                                          min_samples_leaf=int(rng.randint(1, 6)),
                                                                          random_state=0)
         bdesc = "tree-depth-%d" % depth
     elif bk == "kbins":
         nb = int(rng.randint(2, 6))
-        binner = KBinsDiscretizer(n_bins=nb, strategy=["quantile", "uniform"][rng.randint(2)])
+        binner = _refusable(KBinsDiscretizer)(n_bins=nb, strategy=["quantile", "uniform"][rng.randint(2)])
         bdesc = "kbins-%d" % nb
     else:
         binner = "bins"
@@ -281,6 +300,34 @@ def run_case(case, ctx):
         if not set(ref["predict"].tolist()) <= set(allcl):
             ctx.violation(K + "predict/label-outside-classes", "predicted %r, classes_ %r" % (
                 sorted(set(ref["predict"].tolist()))[:6], allcl), cfg=cfg)
+
+    # ---- history: a second fit on other rows that the BINNER refuses (first step of fit) changes nothing: every
+    # row, in seen and unseen buckets, is answered as before
+    if bk != "bins":
+        X2 = (X[::-1] * 0.5 + 1).astype(X.dtype)
+        y2 = y[::-1].copy()
+        REFUSE["on"] = True
+        try:
+            numpy.random.seed(rs)
+            m0.fit(X2, y2)
+            refused = False
+        except probes.InjectedFault:
+            refused = True
+        except Exception:
+            refused = None
+        finally:
+            REFUSE["on"] = False
+        if refused:
+            ctx.hit("history.refit_refused_by_binner")
+            after = outputs(m0)
+            for meth in methods:
+                if after[meth].shape != ref[meth].shape or not numpy.array_equal(after[meth], ref[meth]):
+                    chg = numpy.where((after[meth].reshape(len(Q), -1) != ref[meth].reshape(len(Q), -1)).any(axis=1))[0]
+                    where = "unseen-bucket" if unseen[chg].any() else "seen-bucket"
+                    ctx.violation(K + "%s/changed-by-refused-refit/%s" % (meth, where),
+                                  "a refit refused by the binner changed %s for %d rows (%s)" % (
+                                      meth, len(chg), where), cfg=cfg)
+                    break
 
     # ---- n_jobs and schedules: every output identical to the serial fit
     def same(o, tag, monitor):
